@@ -1372,7 +1372,14 @@ impl Permission {
             None => vec![PermissionKind::Read],
         };
         let keys = match permision.next() {
-            Some(keys) => keys.to_string().split(",").map(|s| s.to_string()).collect(),
+            // An entry without a pattern is stored as "r " and read back as the empty pattern, which
+            // every key contains: an empty pattern is no pattern and grants nothing
+            Some(keys) => keys
+                .to_string()
+                .split(",")
+                .filter(|s| !s.is_empty())
+                .map(|s| s.to_string())
+                .collect(),
             None => vec![],
         };
         Permission { kinds, keys }
